@@ -13,3 +13,6 @@ import Peppi.Props.C08
 #print axioms Peppi.Props.C08.exampleIrr_B
 #print axioms Peppi.Props.C08.exampleIrr_C
 #print axioms Peppi.Props.C08.exampleIrr_G
+#print axioms Peppi.Props.C08.handleEvent_extra
+#print axioms Peppi.Props.C08.runEvents_longer
+#print axioms Peppi.Props.C08.exampleIrr_N
